@@ -180,9 +180,31 @@ def check_many_tempos(ctx):
     check_doc(doc, dict(devs=["tempo_points=40"], elems=[]), dict(many_tempos=40), ctx, key=("many", 40))
 
 
+B36 = "0123456789ABCDEFGHIJKLMNOPQRSTUVWXYZ"
+LARGE = dict(quick=[(100, 600, 60), (20, 3000, 300)], thorough=[(100, 600, 60), (20, 3000, 300), (700, 6000, 1000)])
+
+
+def check_large(n_tempo, n_notes, n_samples, ctx):
+    """size: many tempo points (ids beyond two digits' first), thousands of objects over hundreds of measures, hundreds of samples"""
+    doc = default_doc()
+    doc["bpms"] = [(F(4 * i), str(100 + (i * 7) % 150)) for i in range(n_tempo)]
+    ids = [a + b for a in B36 for b in B36 if a + b not in ("00", "ZZ")][:n_samples]
+    doc["samples"] = {i.encode(): f"s{k}.wav".encode() for k, i in enumerate(ids)}
+    notes = []
+    for i in range(n_notes):
+        b = F(i, 4)
+        if i % 9 == 4:
+            notes.append(("hold", b, i % 8, F(1, 2), f"s{i % n_samples}"))
+        else:
+            notes.append(("hit", b, i % 8, None, f"s{(i * 3) % n_samples}"))
+    doc["notes"] = notes
+    check_doc(doc, dict(devs=[f"large={n_tempo}/{n_notes}/{n_samples}"], elems=[]), dict(large=[n_tempo, n_notes, n_samples]), ctx, key=("large", n_tempo, n_notes, n_samples))
+
+
 def roots(tier, seed):
     n = len(_docs(tier))
-    rs = [dict(kind="lcm", first=d) for d in DENS] + [dict(kind="lanes"), dict(kind="routes"), dict(kind="many")] + [dict(kind="grid", pair=list(p)) for p in GRID_PAIRS]
+    rs = [dict(kind="large", args=list(a)) for a in LARGE[tier]]
+    rs += [dict(kind="lcm", first=d) for d in DENS] + [dict(kind="lanes"), dict(kind="routes"), dict(kind="many")] + [dict(kind="grid", pair=list(p)) for p in GRID_PAIRS]
     if tier == "thorough":
         rs.append(dict(kind="limit"))
     return rs + [dict(kind="docs", start=s, stop=min(n, s + CHUNK)) for s in range(0, n, CHUNK)]
@@ -190,7 +212,9 @@ def roots(tier, seed):
 
 def explore(root, tier, ctx):
     k = root["kind"]
-    if k == "lcm":
+    if k == "large":
+        check_large(*root["args"], ctx)
+    elif k == "lcm":
         check_lcm(root["first"], ctx)
     elif k == "lanes":
         for name, n in NLANES.items():
@@ -232,6 +256,8 @@ def replay(case, ctx):
         check_grid(case["grid"][0], case["grid"][1], ctx)
     elif "many_tempos" in case:
         check_many_tempos(ctx)
+    elif "large" in case:
+        check_large(*case["large"], ctx)
     else:
         check(tuple(tuple(x) for x in case["devs"]), tuple(case["seq"]), ctx)
 
@@ -294,13 +320,14 @@ def build_chart(doc):
     hits, holds, den = [], [], []
     for k, b, lane, l, s in notes:
         t = T(b) + doc["off"]
+        sb = samp[s] if s in samp else s.encode() + b".wav"
         if l is None:
-            hits.append(BMSHit(float(t), lane, samp[s]))
-            den.append(("hit", lane, t, F(0), samp[s]))
+            hits.append(BMSHit(float(t), lane, sb))
+            den.append(("hit", lane, t, F(0), sb))
         else:
             ln = T(b + l) - T(b)
-            holds.append(BMSHold(float(t), lane, float(ln), samp[s]))
-            den.append(("hold", lane, t, ln, samp[s]))
+            holds.append(BMSHold(float(t), lane, float(ln), sb))
+            den.append(("hold", lane, t, ln, sb))
     m = BMSMap()
     m.hits = BMSHitList(hits)
     m.holds = BMSHoldList(holds)
